@@ -210,11 +210,17 @@ impl<'rt> Eval<'rt> for Value {
             }
             | Value::Proj(Proj(head, position)) => {
                 let head = head.as_ref().clone().eval(runtime);
-                let projected = head
-                    .into_product_fields()
-                    .into_iter()
-                    .nth(position)
-                    .expect("type-checked product projection must have a matching field");
+                let mut fields = head.into_product_fields();
+                assert!(
+                    position.index < fields.len(),
+                    "type-checked product projection must have a matching field"
+                );
+                let projected = if position.last {
+                    // The last component keeps the rest of the flattened spine.
+                    SemValue::from_product_fields(fields.split_off(position.index))
+                } else {
+                    fields.swap_remove(position.index)
+                };
                 Step::Done(projected)
             }
             | Value::Lit(lit) => Step::Done(lit.into()),
